@@ -570,11 +570,16 @@ def run_term(prog, perm):
 
 # ------------------------------------------------------------------ known findings
 
-def match_known(known, cls, witness=None):
+def match_known(known, cls):
+    """An open entry suppresses exactly the failures diagnosed as its class (see diagnose())."""
     for f in known:
         if f.get("class") == cls:
             return f
     return None
+
+
+def known_text(f, cls):
+    return "%s: %s" % (cls, (f.get("what_fails") or "").split(". ")[0])
 
 
 # ------------------------------------------------------------------ the check
@@ -616,7 +621,7 @@ def unify_part(rep, known):
     for cls, w in sorted(fails.items()):
         f = match_known(known, cls)
         if f:
-            rep.known_finding(f.get("what_fails", cls))
+            rep.known_finding(known_text(f, cls))
         else:
             rep.violation({"what": "dagrt.data.unify is not a partial join: " + cls, "class": cls,
                            "witness": w, "kind": "unify",
@@ -640,7 +645,11 @@ def main(tier):
     rep = common.Reporter(PID, tier)
     seed = common.seed()
     known = common.known_findings(PID)
+    import time
+    t0 = time.time()
+    timing = {}
     ps = common.proof_stage(rep, PID, gen=["c14"])
+    timing["proof_stage_s"] = round(time.time() - t0, 1)
 
     # ---- part 1: unify on the complete universe
     uterms, n_pairs, n_triples, ufails = unify_part(rep, known)
@@ -651,7 +660,10 @@ def main(tier):
     cap = 120
     jobs = [(p, perms_of(len(p["stmts"]), rng, cap)) for p in progs]
     seeds = SEEDS_QUICK if tier == "quick" else SEEDS_THOROUGH
+    t1 = time.time()
     res, werrors = run_all(jobs, seeds)
+    timing["impl_runs_s"] = round(time.time() - t1, 1)
+    t1 = time.time()
     n_runs = sum(len(pm) for _, pm in jobs) * len(seeds)
 
     failing = {}          # class -> (prog, detail)
@@ -706,10 +718,12 @@ def main(tier):
                   "replay": "./check C14 --replay <this file>"}
         f = match_known(known, cls)
         if f:
-            rep.known_finding(f.get("what_fails", cls))
+            rep.known_finding(known_text(f, cls))
         else:
             rep.violation(detail)
 
+    timing["oracle_and_shrinking_s"] = round(time.time() - t1, 1)
+    t1 = time.time()
     # ---- correspondence with the Coq model
     n_eval = 0
     mism, errors = [], list(werrors)
@@ -747,6 +761,7 @@ def main(tier):
     elif not model_ready:
         errors.append("model not built")
 
+    timing["coq_correspondence_s"] = round(time.time() - t1, 1)
     tie_broken = bool(mism or errors)
     if (not ps["ok"] or tie_broken) and not rep.violations:
         detail = {"what": "proof obligation or model/implementation correspondence no longer checks; "
@@ -807,7 +822,7 @@ def main(tier):
         samples=[{"program": jobs[i][0], "orders": len(jobs[i][1]),
                   "outcome_first_order": (res[seeds[0]][i][0] if not werrors else None)}
                  for i in (0, len(jobs) // 2, len(jobs) - 1)],
-        exhaustive=False,
+        exhaustive=False, timing=timing,
     )
     rep.assumptions = [
         "expressions are constants, variables, sums, products, quotients and comparisons; function calls, "
